@@ -167,5 +167,8 @@ func ValidIdentifier(s string) bool {
     // is easiest to do with our existing scanner-related infrastructure here
     // and nobody should be validating identifiers in a tight loop.
     tokens := scanTokens([]byte(s), "", hcl.Pos{}, scanIdentOnly)
-    return len(tokens) == 2 && tokens[0].Type == TokenIdent && tokens[1].Type == TokenEOF
+    // the one token has to be the whole string: the scanner skips a byte order mark at
+    // the start of its input, which is not part of the identifier that follows it
+    return len(tokens) == 2 && tokens[0].Type == TokenIdent && tokens[1].Type == TokenEOF &&
+        tokens[0].Range.Start.Byte == 0 && tokens[0].Range.End.Byte == len(s)
 }
